@@ -62,11 +62,13 @@ def shape(c):
     i += 1
     spans = set()
     for k in range(n):
-        it = c[i + 12 * k:i + 12 * k + 12]
-        spans.add(max(it[1], it[3]))
-        if any(it[6:10]):
+        it = c[i + 13 * k:i + 13 * k + 13]
+        spans.add(max(it[2], it[4]))
+        if it[0] == 1:
+            out.add('text item (min-content != max-content)')
+        if any(it[7:11]):
             out.add('item margins')
-        if it[10] or it[11]:
+        if it[11] or it[12]:
             out.add('item overflow hidden')
     for sp in spans:
         out.add('max item span %d' % sp)
